@@ -963,3 +963,68 @@ def r_canonpath(ctx) -> RuleResult:
                              f"this return is reached without: {', '.join(skipped)}" + (f" (under `{short(tests[0], 50)}`)" if tests else "") +
                              ": the graph handed back keeps the caller's labels and whatever partition numbers it came with, so classes and numbering are not those of the canonical form", line=r.lineno))
     return res
+
+
+# --------------------------------------------------------------------------- R-COUNTSLINE
+
+
+@rule("R-COUNTSLINE")
+def r_countsline(ctx) -> RuleResult:
+    res = RuleResult("R-COUNTSLINE", "V3000: a counts line with the optional `REGNO=` field of the format is accepted like one without it")
+    from ..concrete import UNKNOWN, PathEval, PState
+    from .common import mentions_text
+    v3 = reader_entries(ctx)["V3000"]
+    clo = [v3] + [ctx.cg.funcs[q] for q in ctx.cg.closure([v3.fq])]
+    cands = [f for f in clo if mentions_text(ctx, f, f.node, "COUNTS") and any(isinstance(x, ast.Raise) for x in own_walk(f.node)) and params_of(f.node)]
+    if not cands:
+        raise AnalysisError("R-COUNTSLINE: no function of the V3000 reader checks the counts line (anchor vanished)")
+
+    def consts_of(f_):
+        out_ = {}
+        for nm in {x.id for x in ast.walk(f_.node) if isinstance(x, ast.Name)}:
+            v = try_const(ctx, f_, ast.Name(nm, ast.Load()), default=None)
+            if v is not None:
+                out_.setdefault(nm, v)
+        return out_
+    base = ["M", "V30", "COUNTS", "4", "3", "0", "0", "0"]
+    import itertools
+    for f in cands:
+        calls = {g.name: (g.node, consts_of(g)) for g in [ctx.cg.funcs[q] for q in ctx.cg.closure([f.fq])] if g.cls is None and "." not in g.qualname}
+        # the test that rejects a bad counts line: an `if` that mentions COUNTS and raises
+        for st in own_walk(f.node):
+            if not (isinstance(st, ast.If) and mentions_text(ctx, f, st.test, "COUNTS")):
+                continue
+            if any(isinstance(x, ast.Raise) for x in st.body):
+                reject_when = True
+            elif st.body and isinstance(st.body[-1], (ast.Return, ast.Pass, ast.Continue)) and any(isinstance(x, ast.Raise) for x in own_walk(f.node) if getattr(x, "lineno", 0) > st.end_lineno):
+                reject_when = False          # `if <line is fine>: return` ... raise
+            else:
+                continue
+            names = sorted({x.id for x in ast.walk(st.test) if isinstance(x, ast.Name) and isinstance(x.ctx, ast.Load)} - set(consts_of(f)) - set(calls)
+                           - {"len", "all", "any", "int", "str", "isinstance", "list", "tuple"})
+            names = [n_ for n_ in names if not any(isinstance(c_, ast.comprehension) and any(isinstance(t_, ast.Name) and t_.id == n_ for t_ in ast.walk(c_.target)) for c_ in ast.walk(st.test))]
+            if not names or len(names) > 2:
+                continue
+
+            def outcome(tokens, shape):
+                pe = PathEval(calls)
+                env = consts_of(f)
+                for nm, how in zip(names, shape):
+                    env[nm] = list(tokens) if how == "line" else [UNKNOWN] * 5 + [list(tokens)] + [UNKNOWN] * 12
+                return pe.test(st.test, PState(env)), pe.gaps
+            fits = [sh for sh in itertools.product(("line", "lines"), repeat=len(names)) if outcome(base, sh)[0] is (not reject_when)]
+            if len(fits) != 1:
+                continue
+            t1, g1 = outcome(base + ["REGNO=4711"], fits[0])
+            if t1 is not None:
+                t1 = (t1 == reject_when)
+            if t1 is None:
+                raise AnalysisError(f"R-COUNTSLINE: cannot evaluate `{short(st.test, 60)}` in {f.qualname} on the sample counts line" + (f" ({g1[0]})" if g1 else ""))
+            res.inst(f.fq, "`M  V30 COUNTS 4 3 0 0 0 REGNO=4711` is accepted like `M  V30 COUNTS 4 3 0 0 0`", "fail" if t1 else "ok")
+            if t1:
+                res.fail(Finding("R-COUNTSLINE", f.module.rel, f.qualname, norm(st.test)[:120],
+                                 "a counts line that carries the format's optional `REGNO=regno` field is rejected although the same line without it is accepted: a conformant file is refused",
+                                 line=st.lineno))
+    if not res.instances:
+        raise AnalysisError("R-COUNTSLINE: none of the functions that mention COUNTS accepts the plain sample counts line at index 5 of the token lines")
+    return res
